@@ -206,6 +206,51 @@ def search_report(seed, n):
     return None, ev
 
 
+def search_report_custom_chi2(seed, n):
+    """graphs containing edges whose class overrides calc_chi2 (a Huber-type robust kernel): initial / per-iteration / final chi2
+    of the report equal Graph.calc_chi2() of the corresponding states"""
+    from graphslam.edge.edge_odometry import EdgeOdometry
+
+    class RobustOdometry(EdgeOdometry):
+        def calc_chi2(self):
+            c = float(EdgeOdometry.calc_chi2(self))
+            return c if c <= 1.0 else 2.0 * math.sqrt(c) - 1.0
+
+    ev = 0
+    for k in range(n):
+        rng = Rng(seed, "c12robust|%d" % k)
+        _, desc = G.make_graph(rng, noise=rng.choice([0.3, 1.5]), well_posed=True, fix="first", custom=False)
+        pick = [i for i, e in enumerate(desc["edges"]) if e["kind"] == "odometry" and rng.random() < 0.5]
+        if not pick:
+            continue
+
+        def rb():
+            gg = G.rebuild(desc)
+            for i in pick:
+                gg._edges[i].__class__ = RobustOdometry
+            return gg
+
+        tol, mi = rng.choice([0.0, 1e-6, 1e-2]), rng.randrange(1, 6)
+        g = rb()
+        chi0 = float(rb().calc_chi2())
+        r = quiet_optimize(g, tol=tol, max_iter=mi, fix_first_pose=True)
+        ev += 1
+        same = lambda a, b: a == b or (math.isnan(a) and math.isnan(b)) or abs(a - b) <= 1e-12 * (1 + abs(b))
+        w = lambda what, **kw: dict(kind="report", what=what, match="report:custom-chi2:" + what, tol=tol, max_iter=mi, robust_edges=pick, desc=desc, **kw)
+        if not same(float(r.initial_chi2), chi0):
+            return w("initial_chi2", reported=float(r.initial_chi2), actual=chi0), ev
+        if not same(float(r.final_chi2), float(g.calc_chi2())):
+            return w("final_chi2", reported=float(r.final_chi2), actual=float(g.calc_chi2())), ev
+        for j in range(1, r.num_iterations + 1):
+            gj = rb()
+            quiet_optimize(gj, tol=0.0, max_iter=j, fix_first_pose=True)
+            cj = float(gj.calc_chi2())
+            it = r.iteration_results[j - 1]
+            if it.chi2 is None or not same(float(it.chi2), cj):
+                return w("iteration_chi2", iteration=j - 1, reported=None if it.chi2 is None else float(it.chi2), actual=cj), ev
+    return None, ev
+
+
 # ----------------------------------------------------------------------------- C03 / C06
 
 
@@ -280,6 +325,17 @@ def search_step(seed, n):
                 rng.shuffle(perm)
             g = _Graph(list(g._edges), [vs[i] for i in perm])
             desc = dict(desc, reused_edges=True, vertex_order=perm)
+        if rng.random() < 0.2 and not any(e["kind"].startswith("custom") for e in desc["edges"]):
+            # (not with distance edges: the distance between two vertices at the same place is not differentiable)
+            by_cls = {}
+            for v in g._vertices:
+                by_cls.setdefault(type(v.pose).__name__, []).append(v)
+            grp = [vs_ for vs_ in by_cls.values() if len(vs_) >= 2]
+            if grp:
+                vs_ = rng.choice(grp)
+                for v in vs_[1:]:
+                    v.pose = vs_[0].pose  # one shared initial-guess object
+                desc = dict(desc, shared_pose_object=[v.id for v in vs_])
         for rnd in range(rng.choice([1, 2, 3])):
             # fix_first_pose is passed to optimize() itself: the free set is the caller's flags plus the first vertex
             ffp = rng.random() < 0.5
@@ -318,7 +374,10 @@ def search_step(seed, n):
             if len(free) == 0:
                 break
             Hf, bf = H[np.ix_(free, free)], b[free]
-            cond = np.linalg.cond(Hf)
+            try:
+                cond = np.linalg.cond(Hf) if np.all(np.isfinite(Hf)) else float("inf")
+            except np.linalg.LinAlgError:
+                cond = float("inf")
             if not cond < 1e9:
                 skipped += 1
                 break
@@ -581,6 +640,19 @@ def search_numjac(seed, n):
             d1 = dict(desc, edges=[dict(e, kind="custom_num") if e["kind"].startswith("custom") else e for e in desc["edges"]])
             d2 = dict(desc, edges=[dict(e, kind="custom_ana") if e["kind"].startswith("custom") else e for e in desc["edges"]])
             g1, g2 = G.rebuild(d1), G.rebuild(d2)
+            if rng.random() < 0.4:
+                # multi-start: the numerical-Jacobian graph's edge objects served an earlier start (other Vertex objects, same ids)
+                from graphslam.graph import Graph as _Graph
+                from graphslam.vertex import Vertex as _Vertex
+
+                quiet_optimize(g1, tol=1e-6, max_iter=2)
+                vs1 = [_Vertex(v["id"], G.mk_pose(v["cls"], v["vals"]), fixed=bool(v["fixed"])) for v in d1["vertices"]]
+                g1 = _Graph(list(g1._edges), vs1)
+                # what the edges report now is about THIS graph's vertices
+                for e_ in g1._edges:
+                    for v_e, vid in zip(e_.vertices, e_.vertex_ids):
+                        if v_e is not next(v for v in g1._vertices if v.id == vid):
+                            return dict(kind="numjac", what="an edge re-used in a second Graph still refers to the first graph's Vertex objects", match="numjac-stale-binding", vertex=vid, desc=desc), ev, worst
             r1 = quiet_optimize(g1, tol=1e-10, max_iter=40)
             r2 = quiet_optimize(g2, tol=1e-10, max_iter=40)
             ev += 1
@@ -731,6 +803,15 @@ def newton_decrement(g):
     return float(bf @ np.linalg.solve(Hf, bf)), cond
 
 
+def noise_free_cross_terms(e_):
+    """True when negating + normalising this edge's quaternion is NOT chi2-neutral on the unchanged code (known finding:
+    odometry information with translation-rotation cross terms) - such edges are left alone"""
+    if type(e_).__name__ != "EdgeOdometry":
+        return False
+    I_ = np.asarray(e_.information)
+    return I_.shape == (6, 6) and bool(np.any(I_[:3, 3:] != 0))
+
+
 def search_convergence(seed, n):
     ev = 0
     stats = dict(noise_free=0, noisy=0, skipped_ill_conditioned=0, worst_decrement_ratio=0.0)
@@ -787,6 +868,25 @@ def search_convergence(seed, n):
             extra.fixed = True  # marked after construction, as fix flags usually are
             desc = dict(desc, isolated_fixed_vertex=extra.id)
             stats["isolated_fixed_vertex"] = stats.get("isolated_fixed_vertex", 0) + 1
+        if rng.random() < 0.25:
+            les_ = [e for e in g._edges if type(e).__name__ == "EdgeLandmark"]
+            if les_:
+                g.calc_chi2()
+                for e_ in les_:
+                    real = e_.offset
+                    e_.offset = type(real).identity()
+                    e_.calc_error(), e_.calc_chi2()
+                    e_.offset = real
+                stats["offset_replaced_after_first_use"] = stats.get("offset_replaced_after_first_use", 0) + 1
+        if world == "3d" and rng.random() < 0.3:
+            # the same rotation with the other sign, renormalised by the library itself (what from_g2o does to every estimate)
+            for e_ in g._edges:
+                for attr in ("estimate", "offset"):
+                    q_ = getattr(e_, attr, None)
+                    if type(q_).__name__ == "PoseSE3" and rng.random() < 0.5 and not noise_free_cross_terms(e_):
+                        q_[3:] = -np.asarray(q_[3:])
+                        q_.normalize()
+            stats["negated_then_normalized"] = stats.get("negated_then_normalized", 0) + 1
         if shared:
             byid = {v.id: v for v in g._vertices}
             byid[shared[1]].pose = byid[shared[0]].pose
